@@ -136,6 +136,11 @@ func main() {
 		}
 	}
 	names = append(longNames, names...)
+	// names that end in what another system takes for a program extension: the
+	// program looked up is age-plugin-<the whole name>, also when a program
+	// under the name without the extension lies next to it
+	extNames := []string{"foo.exe", "foo.EXE", "foo.Exe", "foo.bat", "foo.cmd", "foo.com", "foo.sh", "foo.py", "foo.exe.exe", "foo.", "foo.exe.", "exe", ".exe", "q.exe", "foo-1.0", "foo-1.0.exe"}
+	names = append(extNames, names...)
 	r.Set("names_exhaustive_len_1_2", exhaustiveNames)
 	r.Set("names_total", len(names))
 
@@ -154,6 +159,13 @@ func main() {
 			plant(n)
 			plant(strings.ToLower(n))
 		}
+	}
+	for _, n := range extNames {
+		plant(strings.ToLower(n))
+		plant(n)
+	}
+	for _, n := range []string{"foo", "foo.exe", "q", "foo-1", "foo-1.0", "foo.exe.exe"} {
+		plant(n) // the stems
 	}
 	for _, n := range []string{"x", "y", "b", "../x", "a/b", "sub/x", "x/../y", "yubikey", "age-plugin-x", "ab", "a.b", "a+b-c_d.e", "zz", "q9", "UPONLY"} {
 		plant(n)
@@ -307,6 +319,7 @@ func main() {
 	}
 
 	pathOrders(r, w, origPath, ui, fileKey)
+	concurrentNames(r, w)
 	headerCases(r, w)
 	cliCases(r, w, origPath)
 	r.Finish()
